@@ -15,7 +15,7 @@ CLAIMS = {
    technique="whole-program points-to / write-effect analysis (custom Andersen over go/ssa)",
    text=("Structural clause decided for ALL schedules: no function reachable from any read API of *SlimTrie or SlimIndex "
          "(15+2 entry points, every iterator closure included) contains an unsynchronised write whose target may be memory "
-         "reachable from the receiver, a package-level variable or string data; in-place rewriters of loaded data are reachable "
+         "reachable from the receiver, a package-level variable (or whatever it was initialised with: memo tables) or string data; in-place rewriters of loaded data are reachable "
          "only from Unmarshal. This is the mechanism the property states (immutable under reads); it does not decide that a call "
          "returns what it returns alone beyond that (determinism of the callee code is assumed)."),
    design="4/C11"),
@@ -35,14 +35,14 @@ CLAIMS = {
          "prefix end, and the significant-bit index is built over the caller's whole key slice — the mechanism by which a de-duplicated "
          "key falls to its left neighbour; plus SlimIndex.RangeGet -> SlimTrie.RangeGet routing and one shared three-way descent. "
          "The keep mask compares every adjacent pair of encoded values (values are not sorted); every record's bytes are the encoder's output for that "
-         "record, from an encoder whose results are independent. Does not decide the three-way search itself (rank values at run time)."),
+         "record, from an encoder whose results are independent; leaf bytes are reached only through the leaf array's decoder. Does not decide the three-way search itself (rank values at run time)."),
    design="4/C02"),
  "C04": dict(
    technique="labelled flow (option witnesses) + CFG dominance/post-dominance gates + sibling-decoder agreement",
    text=("Decides the refusal clause (a nil test of a builder-computed witness of EACH prefix option panics before any traversal, for "
          "all three scan APIs), the every-value-encoder clause (scan value bytes are located only by the leaf array decoder Get uses; no "
          "GetEncodedSize(nil) fixed-width belief on read paths), the stop clause (false callback result ends ScanFrom; ScanFromTo's "
-         "wrapper returns false or the callback's result; the scan loop ends on a nil key, never on its length; the end-bound wrapper keeps no state across callbacks), delegation on every path and stickiness of exhaustion. Does not decide order/"
+         "wrapper returns false or the callback's result; the scan loop ends on a nil key, never on its length; the end-bound wrapper keeps no state across callbacks), delegation on every path and stickiness of exhaustion; the layout of the value array scans read is decided per element. Does not decide order/"
          "uniqueness/completeness of yielded keys or bound inclusivity (runtime rank values)."),
    design="4/C04"),
  "C13": dict(
@@ -55,23 +55,24 @@ CLAIMS = {
          "decoded under their validity discriminators with a length that reads the marker byte. It does not decide that the query side uses the payload only to reject."),
    design="4/C13"),
  "C17": dict(
-   technique="labelled information-flow analysis of the builder (key-material taint to wire fields and store events)",
+   technique="labelled information-flow analysis of the builder (key-material taint to wire fields and store events) + translation-class dataflow over key bit positions (shift invariance of construction decisions)",
    text=("Decided for every key set: values that can hold key bytes are stored into builder state or the returned message only on "
          "paths where option InnerPrefix or LeafPrefix is known true (must-condition from transitive control dependence), and reach only "
          "InnerPrefixes.Bytes / LeafPrefixes.Bytes; hence in filter mode nothing proportional to key length is stored; the element width of every "
          "per-node array outside the payload sections and the decision to build a per-node section at all carry no key-content label (the "
          "documented empty-trie marker excepted); a node is made 257-bit only under a lower bound (> K, K >= 4) on its own child count; the build uses no "
-         "process-wide state. Does not decide the numeric bound of 8 bytes/key + 256 itself."),
+         "process-wide state; no construction decision compares an absolute key bit position (or a quantity scaled from one) with a constant — positions are used only modulo their alignment, in differences and against other positions, so prepending a common prefix of whole bytes cannot change the shape. Does not decide the numeric bound of 8 bytes/key + 256 itself."),
    design="4/C17"),
 
  "C05": dict(
-   technique="determinism lint over SSA (map-range/sort discipline) + per-version definite-reassignment dataflow on the semver-specialised CFG",
+   technique="determinism lint over SSA (map-range/sort discipline) + per-version definite-reassignment dataflow on the semver-specialised CFG + nil-test lint over slice-typed wire fields",
    text=("Decides necessary conditions of byte-stable Marshal (no map-order leak: collect-then-sort with a comparator that reads the map key; "
          "no random/clock/goroutine/%p; no map in wire structs), the no-residue clause (for each of the compatible versions every "
          "non-configuration field of SlimTrie is stored on every success path of the version-specialised Unmarshal before any load that could "
          "observe its old value, derived fields computed after the last message write; Reset likewise), proto.Size = len(Marshal()) by method "
          "set, that the stamped version is loadable without fix-up, that every bitmap is read with the index kind it is built or loaded with, that the "
          "stream Marshal returns is fresh (not pooled, not kept) and that the build uses no process-wide state (sync.Pool, package-level variables). "
+         "No decision rests on the nil-ness of a bytes/repeated wire field (proto3 drops empty ones: built and loaded tries would differ). "
          "Does not decide that a loaded trie answers identically."),
    design="4/C05"),
  "C06": dict(
@@ -79,7 +80,7 @@ CLAIMS = {
    text=("Decides the dispatch for every version in the compatible list: the version-specialised Unmarshal has success paths and each performs "
          "exactly the loader family of that layout (three sections in order + rebuild + store + init / one Slim section + prefix re-encoding + leaf "
          "array reconstruction + init / one Slim section + init), fix-up functions identified by the wire fields they write and no other in-place rewrite "
-         "on a success path; loaders driven by constant tables are unrolled; no bitmap word is trimmed in place with mask(n&63) unguarded; the legacy "
+         "on a success path; loaders driven by constant tables are unrolled; no bitmap word is trimmed in place with, or overwritten by, mask(n&63) unguarded; helpers handed parts of the loaded message count as rewrites of it; the legacy "
          "loader never decides emptiness from the children array alone; no part of a split multi-byte quantity is modified in its own width "
          "before recombination (lost carry); legacy arrays are "
          "ranked over their own (Bitmaps, Offsets). Does not decide the conversions' arithmetic on arbitrary old streams."),
@@ -112,13 +113,13 @@ CLAIMS = {
          "can have padding; no codec panics explicitly on a value of its domain (String16: 0..65535 bytes). TypeEncoder field layout is encoding/binary's."),
    design="4/C15"),
  "C16": dict(
-   technique="symbolic term equality between sibling accessors (Rank64 inlined) + CFG reachability for reject-before-effect",
+   technique="symbolic term equality between sibling accessors (Rank64 inlined) + CFG reachability for reject-before-effect + store-before-delegation and provenance of the packed element buffer",
    text=("Decided for every array state and index: each typed Get has the same presence test and the same byte-offset polynomial as the "
          "generic Base.GetBytes with eltsize=Sizeof(elt), decodes with LittleEndian.UintN of that width, returns (0,false) when absent; "
          "InitIndex/Init cannot reach their sentinel-error return after a receiver store or a use of the list other than the validation, every "
          "non-panicking path of Init carries the validation's success condition or returns the sentinel, every element is encoded in a unit-step loop "
          "over all elements and appended unconditionally (no goroutines), and "
-         "constructors return nil with the error; every array type is exactly Base->Array32. Rank offsets' own correctness and the protobuf "
+         "constructors return nil with the error; wrappers store nothing into their receiver before delegating to the validating initialiser; Elts is only ever the appended output of the element encoder; every array type is exactly Base->Array32. Rank offsets' own correctness and the protobuf "
          "round trip are not decided."),
    design="4/C16"),
  "C18": dict(
@@ -131,12 +132,13 @@ CLAIMS = {
    design="4/C18"),
 
  "C08": dict(
-   technique="CFG/dominance + symbolic induction-variable terms (order check) and call-chain-bound narrowing analysis with guard implication",
+   technique="CFG/dominance + symbolic induction-variable terms (order check) and call-chain-bound narrowing analysis with guard implication + translation-class dataflow over key bit positions (closed set of rejection reasons)",
    text=("Decides that out-of-order input is always rejected: the construction function compares keys[a] with keys[a+1] as Go strings for "
          "a = 0..len-2 unconditionally, returns (nil, ErrKeyOutOfOrder-derived) exactly on >=, and the loop exit dominates every consumer of "
          "the keys; and that no accepted input stores a silently truncated quantity: every narrowing to 8/16 bits reachable from NewSlimTrie or "
          "the legacy rebuild is bounded locally, by operand widths through the call chain, or by an error guard on the same term that lies on "
-         "every path on which the conversion can execute (option-polarity aware). Does not decide that accepted lists are indexed correctly (C01)."),
+         "every path on which the conversion can execute (option-polarity aware). The reasons for refusing input form a closed set: every error return under NewSlimTrie is the order violation, an error handed up, or is controlled by a comparison of a branch-free run length (difference of two key bit positions of one node) with a constant that rejects only runs the 16-bit step cannot hold (>= 2^18 bits); in-place rewrites of node sizes are confined to ordinals >= BigInnerCnt. "
+         "Does not decide that accepted lists are indexed correctly (C01)."),
    design="4/C08"),
  "C12": dict(
    technique="guarded result summaries: every positive answer is the reader's own result; type agreement via go/types; bound analysis of offset narrowing",
@@ -179,27 +181,27 @@ CLAIMS = {
          "prefix tests a three-way result for (in)equality with 0 and has exactly one side from which no found answer is reachable (a mismatch cannot be "
          "ignored); after the descent a found answer is given only if no leaf tails are stored at all, or the key ended exactly at a leaf without a "
          "tail, or the stored tail compared equal with the rest of the key; stored prefix and tail are read only under their validity discriminators; every "
-         "query byte value 0x00-0xff is addressable as a label; key material is never walked by runes. "
+         "query byte value 0x00-0xff is addressable as a label; key material is never walked by runes; the value array layout is decided per element and nodes are decoded with the size they were built with. "
          "It does NOT decide that the comparisons are right for every byte string, nor anything about RangeGet/Search, ordering or neighbour "
          "bookkeeping (rank values and key bytes at run time) — most of the property's behaviour is outside this claim."),
    design="4/C03"),
  "C09": dict(
-   technique="guarded result summary of Search + symbolic sibling agreement of first/last-child terms + call-graph routing of the neighbour walks",
+   technique="guarded result summary of Search + symbolic sibling agreement of first/last-child terms + call-graph routing of the neighbour walks + CFG dominance of neighbour-candidate assignments",
    text=("Decides structural necessary conditions of exact neighbours, for every trie and query: Search returns, position by position, the leaf "
          "value of the left / equal / right id of the three-way descent exactly when that id is not -1 (nil otherwise), all three through the same "
          "leaf accessor; the bounds within which the descent accepts a left or right neighbour candidate are, as normalised terms, the very child ids "
          "the extreme-leaf walks follow (first child = rank(Inners, from)+1, last child = rank(Inners, to-1)+bit) — one definition of a node's first "
-         "and last child; the left candidate is finished by the right-most walk and the right candidate by the left-most walk. It does NOT decide "
+         "and last child; the left candidate is finished by the right-most walk and the right candidate by the left-most walk; a child id becomes a left (right) neighbour candidate only under a comparison with the node's first (last) child id. It does NOT decide "
          "which candidate is chosen at each level nor anything that depends on rank values and key bytes at run time — most of the property's "
          "behaviour is outside this claim."),
    design="4/C09"),
  "C19": dict(
-   technique="provenance typing of []uint64 values (bitmap words vs label path lists) through returns/tuples + map-range/sort discipline + session-field typestate",
+   technique="provenance typing of []uint64 values (bitmap words vs label path lists) through returns/tuples + map-range/sort discipline + session-field typestate + rank-position terms (no rank at a node's exclusive end)",
    text=("Decides the clause whose violation made String() panic on tries with table-compressed nodes: no path list flows into a bitmap "
          "parameter, (bitmap,size) pairs carry the size the words were cut with on every return, each bmtree.Decode gets that size; labels are "
          "rendered from a sorted slice; String on an empty trie returns first; the label decoder reads conditionally assigned session fields only under "
          "their validity discriminator (the renderer decodes every node into one reused session); every field String() reads is replaced by every successful "
-         "Unmarshal. The rest of the rendering (each node once, child ids, label string order) is not decided."),
+         "Unmarshal; no rank query is made at the exclusive end of a node's bit range (out of range for the last node of a bitmap ending on a word boundary); the value array layout is decided per element. The rest of the rendering (each node once, child ids, label string order) is not decided."),
    design="4/C19"),
 }
 
